@@ -286,8 +286,8 @@ def run(tier, t0):
     acc.sample({'direction': [0.0, 0.0, 1.0], 'faces': 'nearest and edge-adjacent', 'check': 'angle(v, inverse(forward(v))) <= 1e-11'})
     acc.sample({'face point': [fp.D_EDGE + 1e-9, 0.1], 'face': 7, 'check': '|forward(inverse(p)) - p| <= 1e-11 (just beyond an edge: reflected triangle)'})
     rule = (f'sphere->plane->sphere: Fibonacci lattice of {n} directions and log-scaled neighbourhoods (1e-13..1e-1 rad) of the 62 frame points, each on its nearest and (when unambiguous) its edge-adjacent face; '
-            'plane->sphere->plane: for all 12 faces a polar lattice over the pentagon and the five mirror triangles plus points 1e-12..1e-3 on both sides of every seam ray, edge line, vertex, the centre and the mirror apexes; '
-            'each task uses a fresh projection object (cold caches) and repeats a fifth of its points in reverse order (warm); non-trivial = distinct inputs whose round trip is within 1e-11 (the warm repeats are evaluated but not counted again)')
+            'plane->sphere->plane: for all 12 faces a polar lattice over the pentagon and the five mirror triangles plus points 1e-12..1e-3 on both sides of every seam ray, edge line, vertex, the centre and the mirror apexes, and points exactly on the coordinate axes (+0.0 and -0.0) and on the seam rays; '
+            'each task uses a fresh projection object (cold caches) and repeats a fifth of its points in reverse order (warm, coordinates passed as lists instead of tuples); non-trivial = distinct inputs whose round trip is within 1e-11 (the warm repeats are evaluated but not counted again)')
     return common.finish(PID, LEVEL, tier, acc, t0, rule, [
         'the adjacent face is taken as the second-nearest face centre; skipped when second and third nearest differ by < 1e-9 in cosine (at a face vertex the third face is outside the statement)',
         'angles by atan2(|a x b|, a.b); spherical <-> cartesian conversions of the oracle are its own (atan2 colatitude)',
